@@ -29,7 +29,7 @@ BATCH = 1
 TIMEOUT = 900
 REQUIRED_OBS = ["projects_compiled", "units_compiled", "linked_and_executed", "gxx_syntax_checked", "fmt_kida", "fmt_umist", "fmt_krome", "fmt_leeds",
                 "fmt_uclchem", "fmt_naunet", "fmt_mixed", "model_hh93", "model_rr07", "model_rr07x", "model_hh93i", "with_thermal", "with_shielding",
-                "backend_dense", "backend_sparse", "backend_odeint"]
+                "backend_dense", "backend_sparse", "backend_odeint", "backend_cusparse"]
 RULE = ("configuration grid {kida, umist, krome, leeds, uclchem, naunet, mixtures of two} x dust model {none, hh93, hh93i, rr07, rr07x} x "
         "{dense, sparse, rosenbrock4} x shielding tables on/off x cooling on/off x network variants (with/without H2, with/without the atomic "
         "species of every element, grain group 0/1); combinations naunet refuses with an exception are counted as refused; non-trivial = a "
@@ -66,7 +66,7 @@ def gas_reactions(rng, fmt, with_h2=True, atoms=True):
 def make_case(rng, i):
     fmt = (FORMATS + ["mixed"])[i % 7]
     model = MODELS[(i // 7) % 5]
-    backend = ["dense", "sparse", "odeint"][i % 3]        # 7 formats x 5 models x 3 back-ends: coprime cycle lengths cover the grid
+    backend = ["dense", "sparse", "odeint", "cusparse"][i % 4]        # 7 formats x 5 models x 4 back-ends: coprime cycle lengths cover the grid
     case = {"format": fmt, "model": model, "backend": backend, "thermal": rng.random() < 0.35, "shielding": rng.random() < 0.4,
             "with_h2": rng.random() < 0.7, "with_atoms": rng.random() < 0.7, "seed": rng.getrandbits(32), "grain_group": rng.random() < 0.3}
     if fmt == "mixed":
@@ -76,7 +76,7 @@ def make_case(rng, i):
 
 def gen_cases(tier):
     rng = common.rng_for(ID)
-    n = 70 if tier == "quick" else 630
+    n = 84 if tier == "quick" else 840
     return [make_case(random.Random(rng.getrandbits(64)), i) for i in range(n)]
 
 
@@ -158,7 +158,10 @@ def run_case(case, ctx):
             chemistrydata.update_binding_energy(case["user_eb"])
         kw = {}
         if case["shielding"]:
-            kw["shielding"] = {"H2": "L96Table", "CO": rng.choice(["V09Table", "VB88Table"]), "N2": "L13Table"}
+            co = rng.choice(["V09Table", "VB88Table"])
+            if case["backend"] == "cusparse":
+                co = "V09Table"      # the VB88 table is declared for device == "cpu" only (spline on host arrays): not a supported GPU option
+            kw["shielding"] = {"H2": "L96Table", "CO": co, "N2": "L13Table"}
             obs["with_shielding"] += 1
         if case["thermal"]:
             kw["required_species"] = ["H", "e-", "He", "He+", "H+", "He++"]
@@ -173,10 +176,10 @@ def run_case(case, ctx):
         return {"status": "refused", "violations": [], "obs": dict(obs), "nontrivial": False,
                 "sample": dict(sample, refused=f"{type(e).__name__}: {str(e)[:120]}")}
     obs["projects_compiled"] += 1
-    srcs = sorted((proj / "src").glob("*.cpp"))
+    srcs = sorted((proj / "src").glob("*.cpp")) + sorted((proj / "src").glob("*.cu"))
     text_of = lambda u: (proj / "src" / u).read_text()
-    # ---- independent opinion: g++ -fsyntax-only on every unit
-    for u in srcs:
+    # ---- independent opinion: g++ -fsyntax-only on every unit (C++ back-ends; the CUDA text is compiled by clang under the emulation only)
+    for u in (srcs if case["backend"] != "cusparse" else []):
         p = subprocess.run(["g++", "-std=c++14", "-fsyntax-only", "-I", str(lab.SHIM), "-I", str(proj / "include"), str(u)], capture_output=True, text=True, timeout=300)
         obs["gxx_syntax_checked"] += 1
         if p.returncode != 0:
@@ -189,7 +192,10 @@ def run_case(case, ctx):
                                   unit=u.name, **classify(diag + " " + d2, case, u.name, text_of)))
     # ---- sanitizer build of every unit + link + first calls
     try:
-        b = lab.build_cvode(proj, work / "b", case["backend"], ctx.cache) if case["backend"] != "odeint" else lab.build_odeint(proj, work / "b", ctx.cache)
+        if case["backend"] == "cusparse":
+            b = lab.build_cusparse(proj, work / "b", ctx.cache, with_naunet=True)
+        else:
+            b = lab.build_cvode(proj, work / "b", case["backend"], ctx.cache) if case["backend"] != "odeint" else lab.build_odeint(proj, work / "b", ctx.cache)
         obs["units_compiled"] += len(srcs)
     except lab.BuildError as e:
         diag = "; ".join(e.diagnostics()[:3]) or e.stderr[-300:]
@@ -203,7 +209,11 @@ def run_case(case, ctx):
     cmds = ["info"] + [f"set {f} {v}" for f, v in (("nH", "1e4"), ("Tgas", "50"), ("Tdust", "15"), ("zeta", "1.3e-17"), ("Av", "2.0"))] + ["y " + y, "rates", "fex", "jac"]
     if "H" in mac["ELEM"]:
         cmds.append("renorm 1 " + y)
-    rr = lab.run_driver(b["exe"], cmds, work / "b")
+    if case["backend"] == "cusparse":
+        # two systems through the emulated kernels, then the generated class: Init / Solve (one mock CVode call) / Finalize
+        cmds = ["info", "nsys 2 2"] + [f"set -1 {f} {v}" for f, v in (("nH", "1e4"), ("Tgas", "50"), ("Tdust", "15"), ("zeta", "1.3e-17"), ("Av", "2.0"))] + \
+               ["y " + y + " " + y, "rates", "fex", "jac", "script 1 0 1.0", "solve 1.0"]
+    rr = lab.run_driver(b["exe"], cmds, work / "b", leaks=(case["backend"] != "cusparse"))
     asan = [l for l in rr.asan]
     hard = [l for l in rr.ubsan if "division by zero" not in l]
     if rr.timed_out or asan or hard or rr.shim_abort or (rr.returncode not in (0, 87)):
